@@ -18,6 +18,7 @@
    SYSSHIM_KILLAT=<k> : the process dies (_exit 137) just before its k-th mutating call (unlink, link, rename,
      open for writing/creating, write to a descriptor other than 0, fsync, ftruncate, utimes), counted per process
    SYSSHIM_LOGDATA=<n> : bytes of data shown per logged write (default 64); SYSSHIM_LOGREAD=<fd,fd> : log reads on these
+   SYSSHIM_GATEALL=1 (with SYSSHIM_GATE): every unlink/link/rename/open-for-writing also stops at the gate ("mut")
    The shim changes nothing unless told to. */
 #define _GNU_SOURCE
 #include <dlfcn.h>
@@ -90,9 +91,19 @@ static void slog(const char *fmt, ...) {
   buf[n++] = '\n';
   { ssize_t (*rwrite)(int, const void *, size_t) = dlsym(RTLD_NEXT, "write"); rwrite(logfd, buf, n); }
 }
-static long killat = -2, mutcount = 0;
+static volatile long killat = -2, mutcount = 0;
+/* SYSSHIM_KILLSIG=1: on SIGUSR2 the process dies before its NEXT mutating call, so that every call it completed
+   is in the log (a SIGKILL at a random instant can land between a call and its log line) */
+static void on_usr2(int sig) { (void) sig; killat = mutcount + 1; }
+__attribute__((constructor)) static void shim_ctor(void) {
+  if (getenv("SYSSHIM_KILLSIG")) { struct sigaction sa; memset(&sa, 0, sizeof sa); sa.sa_handler = on_usr2; sigaction(SIGUSR2, &sa, 0); }
+}
+static void gate(const char *op, const char *detail);
 static void mutating(const char *call, const char *path) {
-  if (killat == -2) { const char *e = getenv("SYSSHIM_KILLAT"); killat = e ? atol(e) : -1; }
+  { static int ga = -1; if (ga < 0) ga = getenv("SYSSHIM_GATEALL") ? 1 : 0;
+    if (ga && (!strcmp(call, "unlink") || !strcmp(call, "link") || !strcmp(call, "rename") || !strcmp(call, "open"))
+        && path && !strstr(path, "lock/")) { char b[300]; snprintf(b, sizeof b, "%s:%s", call, path); gate("mut", b); } }
+  if (killat == -2) { const char *e = getenv("SYSSHIM_KILLAT"); if (killat == -2) killat = e ? atol(e) : -1; }
   if (killat < 0) return;
   if (++mutcount == killat) { slog("KILLAT %ld before %s %s", killat, call, path ? path : ""); _exit(137); }
 }
